@@ -6,7 +6,9 @@
    model's table, and that associativity is a function of the level.  A differing pair is
    reported as the failing input.
 2. Lean: Props/C15.lean (precedence climbing: yield, table respected, uniqueness, round trip
-   parse(print) for operator trees of any size and parenthesisation, trivia, sugar) rebuilt + audited.
+   parse(print) for operator trees of any size and parenthesisation incl. bindings; the lexer
+   accepts exactly the declarative layouts `lex text = some ts <-> Layout ts text`, hence arbitrary
+   trivia between lexemes never matters; sugar) rebuilt + audited.
 3. Correspondence real parser vs model parser (AST as s-expression, or reject) on: all operator
    pairs and triples in all groupings; trees rendered by the independent Lean printer with
    minimal / full / random parentheses and random trivia (also compared with the tree that was
@@ -172,6 +174,27 @@ def run(ctx):
     if n_examples < 300:
         ctx.notes.append("only %d manual examples found in docs/*.dj" % n_examples)
 
+    # --- lexeme boundaries: the token TREES of both lexers (not only the verdict of the parser)
+    lx = sorted(set(c15_cases.lexemes(rng, thorough)))
+    lreal = ctx.harness(["c15", "lex"], input="".join(hx(t) + "\n" for t in lx)).split("\n")
+    lmodel = ctx.model(["c15.lex " + hx(t) for t in lx])
+    lbad = lacc = 0
+    for t, r, m in zip(lx, lreal, lmodel):
+        lacc += r.startswith("OK")
+        if r != m:
+            lbad += 1
+            if lbad <= 10:
+                ctx.violation("c15-lex:%s" % t, "real lexer and proved model lexer cut a text into different tokens "
+                              "(the model is proved to accept exactly the layouts: lexemes separated by arbitrary trivia)",
+                              {"text": t, "real": r[:400], "model": m[:400]}, broken=["correspondence c15-lex", "lex_iff_layout on the real lexer"])
+    if len(lreal) < len(lx):
+        raise verif.CheckError("harness c15 lex answered %d lines for %d texts" % (len(lreal), len(lx)))
+    ctx.log("lexeme boundaries: %d texts (%d accepted), %d disagreements" % (len(lx), lacc, lbad))
+    corr.total += len(lx)
+    corr.bad += lbad
+    corr.seen.update(lx)
+    corr.by_stream["lexeme-boundaries(token trees)"] = {"texts": len(lx), "accepted": lacc}
+
     # --- random token soups (rejection side)
     corr.run("soup", c15_cases.soups(rng, 60000 if thorough else 15000))
     ctx.log("correspondence: %d texts (%d accepted by the real parser), %d disagreements"
@@ -225,5 +248,8 @@ def run(ctx):
         "errors are modelled as abort (Option): Lexer::lex / Parser::parse return Err iff any error was recorded",
         "the manual's table is transcribed by hand in C15/Spec.lean from docs/corelang.dj and the property text; "
         "`==` etc. are left-associative as the property text says (the manual's sentence about operators containing `=` is read as the assignments)",
+        "Layout (C15/Layout.lean) is the declarative reading of 'tokens separated by arbitrary white space and comments': "
+        "lexeme shapes, Trivia/CommentBody (odd number of trailing backslashes, optional CR, continues a comment), "
+        "separation condition Token.glues; it is proved equivalent to the lexer MODEL, which this run ties to lex.rs",
         "desugaring that happens in compile.rs ({a}, {$x}, elif, missing else, interpolation, @fmt, def f($x), folds) is checked by running shorthand and expansion on sample inputs (property oracle), not by a theorem",
     ]
